@@ -2,10 +2,11 @@ import logging
 from collections.abc import Callable
 from typing import Any, TypeVar
 
-from reactivex import Observable, abc, empty
+from reactivex import Observable, abc
 from reactivex import operators as ops
 from reactivex.disposable import (
     CompositeDisposable,
+    Disposable,
     RefCountDisposable,
     SerialDisposable,
     SingleAssignmentDisposable,
@@ -42,12 +43,25 @@ def window_toggle_(
         _, window = args
         return window
 
+    def completed_now(_: Any) -> Observable[Any]:
+        # A source element must not outlive its arrival: its duration ends inside the
+        # subscribe call, whatever scheduler the subscription was made with (empty()
+        # would complete on that scheduler, and windows opened meanwhile got the element).
+        def subscribe(
+            observer: abc.ObserverBase[Any],
+            scheduler: abc.SchedulerBase | None = None,
+        ) -> abc.DisposableBase:
+            observer.on_completed()
+            return Disposable()
+
+        return Observable(subscribe)
+
     # The windows that are still open when the source completes end with it.
     return openings.pipe(
         group_join_(
             source,
             closing_mapper,
-            lambda _: empty(),
+            completed_now,
             complete_groups_with_right=True,
         ),
         ops.map(mapper),
